@@ -611,6 +611,53 @@ func genJobs(r *rt.Run) []*Job {
 		}
 	}
 
+	// H. the Unix epoch: point times at and around 1970-01-01T00:00:00Z (k = UnixK: -1 s, 0, +1 s), as first, selected and
+	// last point of a batch and as the batch end time itself, for every function that emits a point time: selectors, top,
+	// bottom and distinct with usePointTimes, the streaming transforms (always point times); first without it as control.
+	// (0 is a legitimate time, not "no time".)
+	U := UnixK
+	epochCfgs := []Cfg{{Fn: "first", UPT: true}, {Fn: "last", UPT: true}, {Fn: "min", UPT: true}, {Fn: "max", UPT: true, As: "y"},
+		{Fn: "percentile", Arg: 50, UPT: true}, {Fn: "percentile", Arg: 100, UPT: true}, {Fn: "top", Arg: 2, UPT: true},
+		{Fn: "top", Arg: 5, UPT: true}, {Fn: "bottom", Arg: 2, UPT: true}, {Fn: "distinct", UPT: true}, {Fn: "first"},
+		{Fn: "cumulativeSum"}, {Fn: "difference"}, {Fn: "elapsed", Arg: 1}, {Fn: "movingAverage", Arg: 1}, {Fn: "movingAverage", Arg: 2}}
+	type ebatch struct {
+		ts   []int
+		tmax int
+	}
+	ebs := []ebatch{{[]int{U}, U + 1}, {[]int{U}, U}, {[]int{U}, 10}, {[]int{U - 1, U}, U}, {[]int{U - 1, U}, U + 1}, {[]int{U, U + 1}, U + 1},
+		{[]int{U, U + 1}, 10}, {[]int{U - 1, U, U + 1}, U + 1}, {[]int{U - 1, U, U + 1}, U + 5}, {[]int{U - 1, U, U + 1}, 10}, {[]int{U - 2, U - 1}, U}}
+	perms := [][]int{{1, 2, 3}, {1, 3, 2}, {2, 1, 3}, {2, 3, 1}, {3, 1, 2}, {3, 2, 1}}
+	for _, c := range epochCfgs {
+		var bs []Batch
+		for _, eb := range ebs {
+			for pi, pm := range perms {
+				if len(eb.ts) < 3 && pi >= len(eb.ts) { // fewer value orders for shorter batches
+					continue
+				}
+				for _, k := range []string{"int", "float"} {
+					b := Batch{G: "a", Tmax: eb.tmax}
+					for i, t := range eb.ts {
+						b.Pts = append(b.Pts, Pt{T: t, K: k, V: pm[i], H: hOf(i + 1), R: "-", I: i + 1})
+					}
+					bs = append(bs, b)
+				}
+			}
+		}
+		for _, ch := range chunks(len(bs), per, 0) {
+			j := &Job{Mode: "batch", Phase: "epoch", Cfg: c}
+			j.Batches = append(j.Batches, bs[ch[0]:ch[1]]...)
+			jobs = append(jobs, j)
+		}
+		// the same times on a stream edge: runs at U-1, U, U+1 (two points each), then a modern time
+		j := &Job{Mode: "stream", Phase: "epoch", Cfg: c}
+		for ri, t := range []int{U - 1, U, U + 1, 5} {
+			for i := 0; i < 2; i++ {
+				j.Points = append(j.Points, SPt{"a", Pt{T: t, K: "int", V: perms[ri%6][i], H: hOf(i + 1), R: "-", I: i + 1}})
+			}
+		}
+		jobs = append(jobs, j)
+	}
+
 	// E. seeded random: wider values, sizes up to 6, unordered and repeated times, mixed kinds, three groups, all options.
 	nRand := 150
 	if r.Thorough() {
@@ -812,7 +859,8 @@ func Run(r *rt.Run) error {
 		"groups interleaved, and type changes between runs; tags: batches fed directly whose points carry every combination of tag shapes "+
 		"(group tags repeated or not, 0-2 own tags) in a one-tag and a two-tag group, for top/bottom/first/last/min/max/percentile; magnitude: "+
 		"values S*B+d with B in 1e9,1e12,2^53,-4e12 and all small d sequences, float and int, mixed signs that cancel, results split exactly "+
-		"into m*B+r (big rationals) and checked to a fixed ulp tolerance; random: seeded configurations "+
+		"into m*B+r (big rationals) and checked to a fixed ulp tolerance; epoch: point times at Unix 0 and +-1 s as first/selected/last point "+
+		"and as batch end time for every function that emits a point time; random: seeded configurations "+
 		"(percentile argument, top/bottom n and tag argument, movingAverage k, elapsed unit, as, usePointTimes) with sizes up to 6, repeated "+
 		"and unordered times, mixed kinds, three groups. Non-trivial = batch/run with at least 2 points; distinct by (configuration, input)", true)
 	return nil
